@@ -350,6 +350,12 @@ def check(ctx) -> None:
 
     c12.rule_k1(ctx, "C15-Rg6")
     rule_rg7(ctx)
+    # Rg8: the text an unsolved row is reset to (and to which imputed compounds are appended) is the map-free reaction of
+    # this run: input_reaction is a copy of the reaction column taken right after the map removal (shared with C02-T2)
+    from ..pipeline import Pipeline
+    from . import c02
+
+    c02.rule_t2(ctx, Pipeline(ctx), "C15-Rg8")
 
 
 def rule_rg7(ctx) -> None:
